@@ -602,6 +602,8 @@ class IOSupport:
             a_percentage = float(seq.upper().count('A')) / float(self.params.upstream_region_len)
         else:
             read_start = read_coords[0] - gene_info.all_read_region_start
-            seq = gene_info.reference_region[read_start - self.params.upstream_region_len:read_start]
+            # fewer than upstream_region_len bases before the transcript (start of the sequence): a negative slice index
+            # would be counted from the end of the loaded region
+            seq = gene_info.reference_region[max(0, read_start - self.params.upstream_region_len):max(0, read_start)]
             a_percentage = float(seq.upper().count('T')) / float(self.params.upstream_region_len)
         return seq, a_percentage
